@@ -359,6 +359,184 @@ Section H.
       rewrite (IH Hl' ltac:(discriminate)). reflexivity.
   Qed.
 
+  (* --- a train of requests cut into reads ANYWHERE: the handler is called once per request, in order --- *)
+
+  (* a strict prefix of an exact request is an incomplete message *)
+  Lemma exact_prefix_again r m p e : exact_request r m -> r = p ++ e -> e <> [] ->
+    exists st, whole p = (PAgain, st).
+  Proof.
+    intros [st [H [_ Hc]]] -> He.
+    destruct (whole p) as [res st'] eqn:E. destruct res as [| |er]; [exists st'; reflexivity| |].
+    - exfalso. pose proof (whole_stable typed_other set_cookie KRequest p e PDone st' E ltac:(discriminate)) as Hs.
+      rewrite H in Hs. inversion Hs; subst st.
+      pose proof (parse_safe typed_other set_cookie KRequest (feed_raw pstate_init p)
+                    (safe_feed pstate_init p safe_init) ltac:(cbn; lia)) as Hok.
+      change (parse (feed_raw pstate_init p)) with (whole p) in Hok. rewrite E in Hok. cbn [ok_result] in Hok.
+      destruct Hok as [[[Hcur _] _] _].
+      pose proof (whole_buf p) as Hb. rewrite E in Hb. cbn [snd] in Hb. rewrite Hb in Hcur.
+      cbn [feed_raw p_cur] in Hc. rewrite app_length in Hc.
+      destruct e; [congruence|cbn [length] in Hc; lia].
+    - exfalso. pose proof (whole_stable typed_other set_cookie KRequest p e (PErr er) st' E ltac:(discriminate)) as Hs.
+      rewrite H in Hs. discriminate.
+  Qed.
+
+  (* the read that brings the end of the request the parser is in the middle of *)
+  Lemma on_input_rest_mid_exact maxsz acc stc r m e s' :
+    whole acc = (PAgain, stc) -> exact_request r m -> r = acc ++ e -> length r <= maxsz ->
+    on_input_rest typed_other set_cookie maxsz stc (e ++ s') = (AHandler m, pstate_init, s').
+  Proof.
+    intros Hacc [st [H [Hm Hc]]] -> Hl. unfold HandlerModel.on_input_rest.
+    pose proof (whole_buf acc) as Hb. rewrite Hacc in Hb. cbn [snd] in Hb. rewrite Hb.
+    rewrite app_length in Hl.
+    rewrite firstn_app, (firstn_all2 e) by lia.
+    rewrite skipn_app, (skipn_all2 e) by lia. cbn [app].
+    set (x := firstn (maxsz - length acc - length e) s').
+    rewrite (merge_from_init typed_other set_cookie KRequest acc stc (e ++ x) Hacc).
+    rewrite app_assoc.
+    rewrite (whole_stable typed_other set_cookie KRequest (acc ++ e) x PDone st H ltac:(discriminate)).
+    pose proof (whole_buf (acc ++ e)) as Hb2. rewrite H in Hb2. cbn [snd] in Hb2.
+    cbn [feed_raw p_msg p_cur p_buf]. rewrite Hm, Hc, Hb2.
+    rewrite skipn_app, skipn_all, Nat.sub_diag. cbn [skipn app].
+    unfold x. rewrite firstn_skipn. reflexivity.
+  Qed.
+
+  Definition train (maxsz : nat) (rs : list bytes) (ms : list msg) : Prop :=
+    Forall2 exact_request rs ms /\ Forall (fun r => length r <= maxsz) rs.
+
+  (* the connection's parser [st], the bytes still to come [u], the handler calls they must produce *)
+  Inductive pending (maxsz : nat) : pstate -> bytes -> list msg -> Prop :=
+  | PendNone : pending maxsz pstate_init [] []
+  | PendReq acc stc r m e rs ms :
+      whole acc = (PAgain, stc) -> exact_request r m -> length r <= maxsz -> r = acc ++ e -> e <> [] ->
+      train maxsz rs ms -> pending maxsz stc (e ++ concat rs) (m :: ms).
+
+  Lemma pending_train maxsz rs ms : train maxsz rs ms -> pending maxsz pstate_init (concat rs) ms.
+  Proof.
+    intros [H2 Hl]. destruct H2 as [|r m rs' ms' Hr Hrest]; [constructor|].
+    inversion Hl; subst. cbn [concat].
+    apply (PendReq maxsz [] pstate_init r m r rs' ms'); try assumption.
+    - apply (whole_nil typed_other set_cookie KRequest).
+    - reflexivity.
+    - eapply exact_nonempty; eauto.
+    - split; assumption.
+  Qed.
+
+  Definition calls (acts : list action) : list msg :=
+    flat_map (fun a => match a with AHandler m => [m] | _ => [] end) acts.
+
+  Lemma app_split_len {A} (e s t u : list A) : e ++ u = s ++ t ->
+    (exists e', e = s ++ e' /\ e' <> [] /\ t = e' ++ u) \/ (exists s', s = e ++ s' /\ u = s' ++ t).
+  Proof.
+    revert s. induction e as [|a e IH]; intros s H.
+    - right. exists s. split; [reflexivity|exact H].
+    - destruct s as [|b s].
+      + left. exists (a :: e). repeat split; [discriminate|cbn in H; symmetry; exact H].
+      + cbn [app] in H. inversion H; subst b. destruct (IH s H2) as [[e' [E1 [E2 E3]]]|[s' [E1 E2]]].
+        * left. exists e'. subst. repeat split; assumption.
+        * right. exists s'. subst. split; reflexivity.
+  Qed.
+
+  Lemma on_read_empty_init fuel maxsz : on_read fuel maxsz pstate_init [] = Some ([AWait], pstate_init).
+  Proof.
+    assert (H : on_input_rest typed_other set_cookie maxsz pstate_init [] = (AWait, pstate_init, [])).
+    { unfold HandlerModel.on_input_rest. rewrite firstn_nil, skipn_nil.
+      change (parse (feed_raw pstate_init [])) with (whole []).
+      rewrite (whole_nil typed_other set_cookie KRequest). reflexivity. }
+    destruct fuel; cbn [HandlerModel.on_read]; unfold HandlerModel.on_input, HandlerModel.leftover; rewrite H; reflexivity.
+  Qed.
+
+  (* one read [s] of the bytes to come *)
+  Lemma on_read_pending maxsz : forall fuel st u ms s t,
+    pending maxsz st u ms -> u = s ++ t -> length (p_buf st) + length s <= fuel ->
+    exists acts st' ms1 ms2,
+      on_read fuel maxsz st s = Some (acts, st') /\ forallb no_respond acts = true /\
+      calls acts = ms1 /\ ms = ms1 ++ ms2 /\ pending maxsz st' t ms2.
+  Proof.
+    induction fuel as [|f IH]; intros st u ms s t Hp Hu Hf.
+    - (* no fuel: the read is empty and the parser at the beginning *)
+      destruct s; [|cbn in Hf; lia].
+      destruct Hp as [|acc stc r m e rs ms Hacc Hr Hl Hre He Htr].
+      + destruct t; [|discriminate]. exists [AWait], pstate_init, [], [].
+        split; [apply on_read_empty_init|]. repeat split; constructor.
+      + pose proof (whole_buf acc) as Hb. rewrite Hacc in Hb. cbn [snd] in Hb. rewrite Hb in Hf.
+        destruct acc; [|cbn in Hf; lia]. cbn [app] in Hu. subst t.
+        rewrite (whole_nil typed_other set_cookie KRequest) in Hacc. inversion Hacc; subst stc.
+        exists [AWait], pstate_init, [], (m :: ms).
+        split; [apply on_read_empty_init|]. repeat split.
+        apply (PendReq maxsz [] pstate_init r m e rs ms);
+          first [assumption | apply (whole_nil typed_other set_cookie KRequest)].
+    - destruct Hp as [|acc stc r m e rs ms Hacc Hr Hl Hre He Htr].
+      + (* nothing to come *)
+        destruct s; [|discriminate]. destruct t; [|discriminate].
+        exists [AWait], pstate_init, [], []. split; [apply on_read_empty_init|]. repeat split; constructor.
+      + pose proof (whole_buf acc) as Hb. rewrite Hacc in Hb. cbn [snd] in Hb. rewrite Hb in Hf.
+        destruct (app_split_len e s t (concat rs) Hu) as [[e' [E1 [E2 E3]]]|[s' [E1 E2]]].
+        * (* the read ends inside the current request *)
+          subst e t. rewrite app_assoc in Hre.
+          destruct (exact_prefix_again r m (acc ++ s) e' Hr Hre E2) as [st' Hst'].
+          assert (Hfit : length (p_buf stc) + length s <= maxsz).
+          { rewrite Hb. subst r. rewrite !app_length in Hl. lia. }
+          cbn [HandlerModel.on_read]. unfold HandlerModel.on_input, HandlerModel.leftover.
+          rewrite (on_input_rest_fits maxsz stc s Hfit).
+          rewrite (merge_from_init typed_other set_cookie KRequest acc stc s Hacc), Hst'. cbn [fst snd].
+          exists [AWait], st', [], (m :: ms). repeat split.
+          apply (PendReq maxsz (acc ++ s) st' r m e' rs ms); assumption.
+        * (* the read brings the end of the current request, and [s'] behind it *)
+          subst s. cbn [HandlerModel.on_read]. unfold HandlerModel.on_input, HandlerModel.leftover.
+          rewrite (on_input_rest_mid_exact maxsz acc stc r m e s' Hacc Hr Hre Hl). cbn [fst snd].
+          pose proof (pending_train maxsz rs ms Htr) as Hp'.
+          destruct s' as [|x l].
+          -- cbn [app] in E2. subst t.
+             exists [AHandler m], pstate_init, [m], ms. repeat split. exact Hp'.
+          -- rewrite app_length in Hf. assert (He1 : 1 <= length e) by (destruct e; [congruence|cbn; lia]).
+             destruct (IH pstate_init (concat rs) ms (x :: l) t Hp' E2 ltac:(cbn [p_buf pstate_init length] in *; lia))
+               as [acts [st' [ms1 [ms2 [R [Hn [Hc [Hm Hpend]]]]]]]].
+             rewrite R. exists (AHandler m :: acts), st', (m :: ms1), ms2. repeat split.
+             ++ cbn [forallb]. rewrite Hn. reflexivity.
+             ++ cbn [calls flat_map app]. fold (calls acts). rewrite Hc. reflexivity.
+             ++ rewrite Hm. reflexivity.
+             ++ exact Hpend.
+  Qed.
+
+  Lemma no_respond_existsb acts : forallb no_respond acts = true -> existsb is_respond acts = false.
+  Proof.
+    induction acts as [|a acts IH]; [reflexivity|]. cbn [forallb existsb]. intros H. apply andb_prop in H.
+    destruct H as [Ha Hr]. rewrite (IH Hr). unfold no_respond in Ha. destruct (is_respond a); [discriminate|reflexivity].
+  Qed.
+
+  Lemma calls_app a b : calls (a ++ b) = calls a ++ calls b.
+  Proof. unfold calls. apply flat_map_app. Qed.
+
+  Lemma serve_pending maxsz : forall segs st ms,
+    pending maxsz st (concat segs) ms ->
+    exists acts, serve maxsz st segs = Some acts /\ calls acts = ms /\ forallb no_respond acts = true.
+  Proof.
+    induction segs as [|s rest IH]; intros st ms Hp.
+    - cbn [concat] in Hp. exists []. cbn [HandlerModel.serve]. split; [reflexivity|].
+      inversion Hp as [|acc stc r m e rs ms' Hacc Hr Hl Hre He Htr Hst Hu]; subst.
+      + split; reflexivity.
+      + exfalso. destruct e; [congruence|discriminate].
+    - cbn [HandlerModel.serve concat] in *.
+      destruct (on_read_pending maxsz (S (length (p_buf st) + length s)) st (s ++ concat rest) ms s (concat rest)
+                  Hp eq_refl ltac:(lia)) as [acts [st' [ms1 [ms2 [R [Hn [Hc [Hm Hpend]]]]]]]].
+      rewrite R, (no_respond_existsb acts Hn).
+      destruct (IH st' ms2 Hpend) as [more [S1 [Hc2 Hn2]]]. rewrite S1.
+      exists (acts ++ more). split; [reflexivity|]. split.
+      + rewrite calls_app, Hc, Hc2. symmetry. exact Hm.
+      + rewrite forallb_app, Hn, Hn2. reflexivity.
+  Qed.
+
+  (* C04 / C01 at the level of the connection: requests [rs] (each exactly one message [ms], each within the limit),
+     delivered on a fresh connection in reads cut ANYWHERE - inside requests, at their boundaries, several requests and
+     the beginning of the next in one read: the handler is called exactly once per request, in order, with the message
+     each request gives alone on a fresh connection, and nothing is refused *)
+  Theorem train_served maxsz rs ms segs :
+    train maxsz rs ms -> concat segs = concat rs ->
+    exists acts, serve maxsz pstate_init segs = Some acts /\ calls acts = ms /\ forallb no_respond acts = true.
+  Proof.
+    intros Htr Hc. apply serve_pending. rewrite Hc. apply pending_train. exact Htr.
+  Qed.
+
   (* --- C14: the size rule --- *)
 
   Definition act_of (r : pres * pstate) : action :=
